@@ -21,11 +21,22 @@ struct Tx {
 pub struct E2 {
     rt: tokio::runtime::Runtime,
     dir: tempfile::TempDir,
+    fixed: Option<PathBuf>,
+    mark: Option<std::fs::File>,
     opts: Option<Options>,
     clock: Option<Arc<fe::ManualClock>>,
     tree: Option<Tree>,
     txs: BTreeMap<u32, Tx>,
     cur_owner: BTreeMap<u32, u32>,
+}
+
+/// values longer than 16 bytes are printed as #len/fnv
+pub fn show_val(v: &[u8]) -> String {
+    if v.len() > 16 {
+        format!("#{}/{}", v.len(), fnv(v))
+    } else {
+        bytes_to_hex(v)
+    }
 }
 
 fn bopt(tok: &str) -> Option<Vec<u8>> {
@@ -113,10 +124,27 @@ fn parse_opts(path: PathBuf, s: &str) -> Options {
 impl E2 {
     pub fn new() -> Self {
         let rt = tokio::runtime::Builder::new_multi_thread().worker_threads(2).enable_all().build().unwrap();
-        E2 { rt, dir: tempfile::tempdir().unwrap(), opts: None, clock: None, tree: None, txs: BTreeMap::new(), cur_owner: BTreeMap::new() }
+        E2 { rt, dir: tempfile::tempdir().unwrap(), fixed: None, mark: None, opts: None, clock: None, tree: None, txs: BTreeMap::new(), cur_owner: BTreeMap::new() }
     }
     pub fn path(&self) -> PathBuf {
-        self.dir.path().join("db")
+        match &self.fixed {
+            Some(p) => p.clone(),
+            None => self.dir.path().join("db"),
+        }
+    }
+    pub fn at(path: &str) -> Self {
+        let mut e = Self::new();
+        e.fixed = Some(PathBuf::from(path));
+        if let Ok(m) = std::env::var("VERIF_MARK") {
+            e.mark = std::fs::OpenOptions::new().create(true).append(true).open(m).ok();
+        }
+        e
+    }
+    fn marker(&mut self, text: &str) {
+        use std::io::Write;
+        if let Some(f) = self.mark.as_mut() {
+            let _ = f.write_all(format!("{}\n", text).as_bytes());
+        }
     }
     fn open_tree(&mut self) -> String {
         let o = self.opts.clone().unwrap();
@@ -175,7 +203,7 @@ impl E2 {
                 } else {
                     let k = c.key().user_key().to_vec();
                     match c.value() {
-                        Ok(val) => format!("cur:{}={}", bytes_to_hex(&k), bytes_to_hex(&val)),
+                        Ok(val) => format!("cur:{}={}", bytes_to_hex(&k), show_val(&val)),
                         Err(e) => format!("err:value:{}", err_name(&e)),
                     }
                 }
@@ -234,11 +262,11 @@ impl E2 {
                 }
             }
             ["set", id, k, v] => match self.txm(id) {
-                Some(t) => Self::unit(t.tx.set(hex_to_bytes(k), hex_to_bytes(v))),
+                Some(t) => Self::unit(t.tx.set(hex_to_bytes(k), bytes_tok(v))),
                 None => "err:NoTxn".into(),
             },
             ["setat", id, k, v, ts] => match self.txm(id) {
-                Some(t) => Self::unit(t.tx.set_at(hex_to_bytes(k), hex_to_bytes(v), ts.parse().unwrap())),
+                Some(t) => Self::unit(t.tx.set_at(hex_to_bytes(k), bytes_tok(v), ts.parse().unwrap())),
                 None => "err:NoTxn".into(),
             },
             ["clock", t] => {
@@ -255,7 +283,7 @@ impl E2 {
             },
             ["getat", id, k, ts] => match self.tx(id) {
                 Some(t) => match t.tx.get_at(hex_to_bytes(k), ts.parse().unwrap()) {
-                    Ok(Some(v)) => format!("val:{}", bytes_to_hex(&v)),
+                    Ok(Some(v)) => format!("val:{}", show_val(&v)),
                     Ok(None) => "val:none".into(),
                     Err(e) => format!("err:{}", err_name(&e)),
                 },
@@ -288,7 +316,7 @@ impl E2 {
                                         let tombstone = kr.is_tombstone();
                                         let v = if tombstone { Ok(vec![]) } else { it.value() };
                                         match v {
-                                            Ok(v) => out.push(format!("{}@{}{}={}", bytes_to_hex(&k), ts, if tombstone { "!" } else { "" }, bytes_to_hex(&v))),
+                                            Ok(v) => out.push(format!("{}@{}{}={}", bytes_to_hex(&k), ts, if tombstone { "!" } else { "" }, show_val(&v))),
                                             Err(e) => return format!("err:value:{}", err_name(&e)),
                                         }
                                         if out.len() > 100000 {
@@ -313,12 +341,12 @@ impl E2 {
                 None => "err:NoTxn".into(),
             },
             ["repl", id, k, v] => match self.txm(id) {
-                Some(t) => Self::unit(t.tx.replace(hex_to_bytes(k), hex_to_bytes(v))),
+                Some(t) => Self::unit(t.tx.replace(hex_to_bytes(k), bytes_tok(v))),
                 None => "err:NoTxn".into(),
             },
             ["get", id, k] => match self.tx(id) {
                 Some(t) => match t.tx.get(hex_to_bytes(k)) {
-                    Ok(Some(v)) => format!("val:{}", bytes_to_hex(&v)),
+                    Ok(Some(v)) => format!("val:{}", show_val(&v)),
                     Ok(None) => "val:none".into(),
                     Err(e) => format!("err:{}", err_name(&e)),
                 },
@@ -339,7 +367,40 @@ impl E2 {
                 }
                 let t = self.txs.get_mut(&n).unwrap();
                 let r = self.rt.block_on(t.tx.commit());
+                if r.is_ok() {
+                    self.marker(&format!("ack {} 0", n));
+                }
                 Self::unit(r)
+            }
+            ["commitsync", id] => {
+                let n = id.parse::<u32>().unwrap();
+                if self.txm(id).is_none() {
+                    return "err:NoTxn".into();
+                }
+                let t = self.txs.get_mut(&n).unwrap();
+                t.tx.set_durability(surrealkv::Durability::Immediate);
+                let r = self.rt.block_on(t.tx.commit());
+                if r.is_ok() {
+                    self.marker(&format!("ack {} 1", n));
+                }
+                Self::unit(r)
+            }
+            ["flushwal", sync] => {
+                let r = self.tree.as_ref().unwrap().flush_wal(*sync == "1");
+                if r.is_ok() && *sync == "1" {
+                    self.marker("synced");
+                }
+                Self::unit(r)
+            }
+            ["mark", text] => {
+                self.marker(text);
+                "ok".into()
+            }
+            ["abort"] => {
+                // process crash: no close, no destructors
+                use std::io::Write;
+                let _ = std::io::stdout().flush();
+                unsafe { libc_exit() }
             }
             ["rollback", id] => match self.txm(id) {
                 Some(t) => {
@@ -416,7 +477,7 @@ impl E2 {
                                 Ok(true) => {
                                     let k = cur.key().user_key().to_vec();
                                     match cur.value() {
-                                        Ok(v) => out.push(format!("{}={}", bytes_to_hex(&k), bytes_to_hex(&v))),
+                                        Ok(v) => out.push(format!("{}={}", bytes_to_hex(&k), show_val(&v))),
                                         Err(e) => return format!("err:value:{}", err_name(&e)),
                                     }
                                     if out.len() > 100000 {
@@ -467,3 +528,10 @@ impl Drop for E2 {
 }
 #[allow(dead_code)]
 fn _unused(_: Arc<()>) {}
+
+extern "C" {
+    fn _exit(code: i32) -> !;
+}
+unsafe fn libc_exit() -> ! {
+    _exit(0)
+}
